@@ -633,13 +633,13 @@ def run_job_inner(job):
                 wire = enc_extract(name, fn, ci, a, k)
                 out["fnstats"][name + ("" if wire else ":outside-model")] += 1
                 if wire is not None:
-                    if S.sync_tokens(o.lAllObjects, with_len=(name == "get_lines_with_length_that_exceed_column"), with_hier=(name in props_c18x.HIER)):
+                    if S.sync_tokens(o.lAllObjects, with_len=(name in props_c18x.WITH_LEN), with_hier=(name in props_c18x.HIER)):
                         epoch[0] += 1
                     S.sync_index(o.oTokenMap, None)
                     key = (epoch[0], S.n_map_sync, tuple(wire))
                     if key not in seen_calls:
                         seen_calls.add(key)
-                        real = "ok " + ";".join(props_c18x.canon_toi2(S, name, t) for t in lt)  # WP3: meta data per extractor
+                        real = props_c18x.canon_result(S, name, r, lt)  # WP3: meta data per extractor; WP3b: int results
                         stats["extract_replayed"] += 1
                         if lt:
                             stats["extract_replayed_nonempty"] += 1
